@@ -8,6 +8,7 @@ import (
 	"os"
 	"sort"
 	"strings"
+	"time"
 
 	"golang.org/x/tools/go/ssa"
 
@@ -91,21 +92,23 @@ type Exec struct {
 	init   *State
 	Res    *RunResult
 
-	MaxSteps  int
-	MaxPaths  int
-	Fixed     map[string]interface{} // concrete values for named nondet inputs (concrete mode)
-	Seed      int
-	Progress  int
-	ForkTrace map[string]int
-	forkSite  string
+	MaxSteps    int
+	MaxPaths    int
+	Fixed       map[string]interface{} // concrete values for named nondet inputs (concrete mode)
+	Seed        int
+	Progress    int
+	ForkTrace   map[string]int
+	forkSite    string
 	onThreadEnd func(st *State, end string)
-	Debug     bool
-	globals   map[*ssa.Global]*Ptr
-	cutsets   map[*ssa.Function]*[128]bool
-	rxCache   map[string]*rxProg
-	uniqCache map[string]bool
-	sizes     types.Sizes
-	fresh     int
+	Budget      time.Duration
+	deadline    time.Time
+	Debug       bool
+	globals     map[*ssa.Global]*Ptr
+	cutsets     map[*ssa.Function]*[128]bool
+	rxCache     map[string]*rxProg
+	uniqCache   map[string]bool
+	sizes       types.Sizes
+	fresh       int
 }
 
 func New(prog *ssa.Program, pkg *ssa.Package, solverName string, timeoutMs int) (*Exec, error) {
@@ -460,6 +463,11 @@ func (e *Exec) Run(fn *ssa.Function, args []Value) *RunResult {
 	st := e.init.Clone()
 	st.setModel(sym.Model{})
 	e.S.Reset()
+	e.deadline = time.Time{}
+	e.MaxPaths = 40000
+	if e.Budget > 0 {
+		e.deadline = time.Now().Add(e.Budget)
+	}
 	base := e.S.Level()
 	e.S.Push()
 	func() {
@@ -766,6 +774,11 @@ func (e *Exec) runLoop(st *State, isInit bool) string {
 		}
 		st.steps++
 		if st.steps > e.MaxSteps {
+			return EndLimit
+		}
+		if st.steps%4096 == 0 && !e.deadline.IsZero() && time.Now().After(e.deadline) {
+			e.Res.Inconclusive = append(e.Res.Inconclusive, "time budget of this configuration exhausted")
+			e.MaxPaths = 0 // stop forking
 			return EndLimit
 		}
 		fr := st.top()
